@@ -448,6 +448,64 @@ func init() {
 		},
 	})
 
+	eng.Register(&eng.Scenario{
+		Name: "refcount-access-equal", Props: []string{"C10"}, MustFinish: true, ObsNames: stdObs,
+		Doc:   "RefCount whose resolver returns the same (==) value on every call: an Access callback is parked on the first value; released() (or SetContext(fresh), choice) invalidates it and an equal replacement is resolved: the callback's context is cancelled and, after it returns, the callback is invoked again; Access returns the second invocation's result, never the first one's context.Canceled",
+		Quick: eng.Bounds{PB: 2, Delay: true}, Thorough: eng.Bounds{PB: 3, Delay: true},
+		Body: func() {
+			how := vsched.Choose(2)
+			target := ccontainer.NewCContainer[int](0)
+			rc := refcount.NewRefCount[int](bg, false, target, nil, func(rctx context.Context, released func()) (int, func(), error) {
+				i := int(vsched.CtrAdd(rcCalls, 1))
+				if i >= 8 {
+					fail("infra.too-many-resolves", "more than 8 resolver calls")
+					return 0, nil, errResolve
+				}
+				vsched.SetCell(49+i, released)
+				return 7, func() { vsched.CtrAdd(rcRel0+i, 1) }, nil
+			})
+			T("A", func() {
+				label("Access")
+				err := rc.Access(bg, func(cctx context.Context, v int) error {
+					k := vsched.CtrAdd(xInvoc, 1)
+					vsched.Observe(oCb, k, int64(v), 0)
+					if v != 7 {
+						fail("C10.bogus-value", "Access callback invoked with %d", v)
+					}
+					if k == 1 {
+						label("Access-callback")
+						<-cctx.Done()
+						label("Access")
+						return context.Canceled
+					}
+					return nil
+				})
+				label("")
+				vsched.Observe(oRet, errCode(err), 0, 0)
+				if err == context.Canceled {
+					fail("C10.spurious-cancel", "Access returned context.Canceled although the caller's context is live: it returned the result of the invocation whose value had been invalidated instead of invoking the callback again with the (equal) replacement")
+				} else if err != nil {
+					fail("C10.wrong-error", "Access returned %v", err)
+				}
+			})
+			vsched.Settle() // the callback is parked on the first value
+			if f, ok := vsched.GetCell(50).(func()); ok && how == 0 {
+				f()
+			} else {
+				rc.SetContext(context.WithValue(bg, ctxKey{}, 2))
+			}
+			vsched.Settle()
+			if vsched.CountParked("Access-callback") > 0 {
+				fail("C10.cb-not-cancelled", "Access callback still parked after its value was invalidated (the replacement is an equal value)")
+			}
+			if n := vsched.Ctr(xInvoc); n != 2 {
+				fail("C10.stale-result", "the Access callback was invoked %d time(s); want 2 (once per value: the first value was invalidated during the callback)", n)
+			}
+			rc.ClearContext()
+			vsched.Settle()
+		},
+	})
+
 	// Access
 	accessBody := func(cbModes []int, firstMode int, callerCancel bool, ctxChange bool) func() {
 		return func() {
